@@ -161,16 +161,41 @@ def run_lines(binary, lines, timeout=900, cwd=None):
     return out
 
 
-def evaluate(prop, cases):
+def _harness_shard(args):
+    prop, cases, timeout = args
+    return run_lines(HBIN, ["%s\t%s" % (prop, c) for c in cases], timeout=timeout)
+
+
+def evaluate(prop, cases, mod=None):
     """returns list of dict(case, impl, model, verdict)"""
-    impl = run_lines(HBIN, ["%s\t%s" % (prop, c) for c in cases])
-    drv = run_lines(DRIVER, ["%s\t%s\t%s" % (prop, c, i) for c, i in zip(cases, impl)])
+    par = getattr(mod, "PARALLEL", 1) if mod else 1
+    timeout = getattr(mod, "HARNESS_TIMEOUT", 900) if mod else 900
+    hprop = getattr(mod, "HARNESS_PROP", prop) if mod else prop
+    if par > 1 and len(cases) > 1:
+        from concurrent.futures import ThreadPoolExecutor
+        k = min(par, len(cases))
+        shards = [cases[i::k] for i in range(k)]
+        with ThreadPoolExecutor(max_workers=k) as ex:
+            outs = list(ex.map(_harness_shard, [(hprop, sh, timeout) for sh in shards]))
+        impl = [None] * len(cases)
+        for si, out in enumerate(outs):
+            for j, o in enumerate(out):
+                impl[si + j * k] = o
+    else:
+        impl = run_lines(HBIN, ["%s\t%s" % (hprop, c) for c in cases], timeout=timeout)
+    raw = impl
+    if mod is not None and hasattr(mod, "postprocess"):
+        impl = [mod.postprocess(c, i) for c, i in zip(cases, impl)]
+    drv = run_lines(DRIVER, ["%s\t%s\t%s" % (hprop, c, i) for c, i in zip(cases, impl)])
     res = []
-    for c, i, d in zip(cases, impl, drv):
+    for c, i, d, rw in zip(cases, impl, drv, raw):
         parts = d.split("\t")
         model = parts[0]
         verdict = parts[1] if len(parts) > 1 else "error"
-        res.append(dict(case=c, impl=i, model=model, verdict=verdict))
+        r = dict(case=c, impl=i, model=model, verdict=verdict)
+        if rw is not i:
+            r["raw"] = rw
+        res.append(r)
     return res
 
 
@@ -179,6 +204,8 @@ def failure_kind(r, strict_model=True):
         return "driver-error"
     if r["impl"].startswith("error"):
         return "harness-error"
+    if r["verdict"].startswith("mismatch"):
+        return "model-mismatch"
     if r["verdict"] != "ok":
         return "spec-violation"
     if strict_model and r["impl"] != r["model"]:
@@ -208,7 +235,7 @@ def default_shrink_candidates(case):
 
 def shrink(prop, mod, r, kind, strict_model, budget=40):
     cur = r
-    for _ in range(budget):
+    for _ in range(getattr(mod, 'SHRINK_ROUNDS', budget)):
         cands = (getattr(mod, "shrink_candidates", None) or default_shrink_candidates)(cur["case"])
         seen, uniq = set(), []
         for c in cands:
@@ -217,7 +244,7 @@ def shrink(prop, mod, r, kind, strict_model, budget=40):
                 uniq.append(c)
         if not uniq:
             break
-        rs = evaluate(prop, uniq[:400])
+        rs = evaluate(prop, uniq[:getattr(mod, 'SHRINK_BATCH', 400)], mod)
         nxt = None
         for x in rs:
             if failure_kind(x, strict_model) == kind:
@@ -317,7 +344,7 @@ def run_property(mod, tier, seed, replay=None):
     results = []
     B = 2000
     for i in range(0, len(cases), B):
-        results.extend(evaluate(prop, cases[i:i + B]))
+        results.extend(evaluate(prop, cases[i:i + B], mod))
     known = {k["id"]: k for k in load_known() if k["property"] == prop}
     nviol = 0
     reported_sigs = set()
@@ -344,7 +371,7 @@ def run_property(mod, tier, seed, replay=None):
         nviol += 1
         path = write_replay(prop, seed, idx, dict(kind=kind, case_index=idx, case=small["case"], original_case=r["case"],
                                                   impl_output=small["impl"], model_output=small["model"],
-                                                  spec_verdict=small["verdict"], finding_class=fid))
+                                                  spec_verdict=small["verdict"], finding_class=fid, raw=small.get("raw")))
         violations.append((path, ""))
     if first_mismatch is not None and nviol == 0:
         idx, r = first_mismatch
@@ -380,7 +407,10 @@ def finish(mod, tier, seed, t0, thms, audited, checker, results, nviol, notes, k
                 hist[k] = hist.get(k, 0) + 1
     outcome = {}
     for r in results:
-        k = "panic" if r["impl"].startswith("panic") else ("agree" if r["impl"] == r["model"] else "differ")
+        if getattr(mod, "STRICT_MODEL", True):
+            k = "panic" if r["impl"].startswith("panic") else ("agree" if r["impl"] == r["model"] else "differ")
+        else:
+            k = "verdict:" + r["verdict"].split(":")[0]
         outcome[k] = outcome.get(k, 0) + 1
     samples = [dict(case=r["case"][:600], impl=r["impl"][:300], model=r["model"][:300], verdict=r["verdict"])
                for r in results[:1] + results[len(results) // 2: len(results) // 2 + 1] + results[-1:]]
